@@ -586,7 +586,8 @@ impl Gen {
                             fee_tier_index: tier_index,
                             tick_spacing: spacing,
                             initialize_pool_authority: pool_auth,
-                            delegated_fee_authority: fee_authority,
+                            // (one tier in three has no delegated fee authority: the two "nobody" markers vary independently)
+                            delegated_fee_authority: if rng.chance(1, 3) { Pubkey::default() } else { fee_authority },
                             default_base_fee_rate: base_fee,
                             filter_period: c.filter_period,
                             decay_period: c.decay_period,
